@@ -626,7 +626,16 @@ def run(ctx):
     _SUPPRESS = frozenset()
     ctx.results = []
 
-    total = len(p1) + len(ccases) + len(p2)
+    # phase 3: adjustment sweep over every preset auto-shape type (c09_adj)
+    from mc.props import c09_adj
+    names = c09_adj.presets()
+    fanout(ctx, c09_adj.work, ctx.rotate(names), chunk_size=4, min_parallel=8)
+    n_adj_cases = ctx.counters.get("adj_sweep_cases", 0)
+    ctx.extra["adjustment_sweep"] = {"presets": len(names), "values": [l for l, _ in c09_adj.VALUES], "cases": n_adj_cases}
+    if ctx.counters.get("adj_sweep_presets") != len(names) or n_adj_cases < 4 * 100:
+        raise HarnessError("adjustment sweep covered %r presets / %d cases" % (ctx.counters.get("adj_sweep_presets"), n_adj_cases))
+
+    total = len(p1) + len(ccases) + len(p2) + n_adj_cases
     if ctx.counters.get("cases", 0) != total:
         raise HarnessError("executed %s cases, enumerated %d" % (ctx.counters.get("cases"), total))
     ctx.counters["states"] = len(ctx.sets.get("states", ()))
@@ -634,6 +643,9 @@ def run(ctx):
 
 
 def replay(data):
+    if data.get("kind") == "adj-sweep":
+        from mc.props import c09_adj
+        return c09_adj.replay(data)
     case, sig = data["case"], data["sig"]
     out = run_case(case)
     for base, in_seq, what, _rank in out.violations:
